@@ -136,13 +136,15 @@ def _what(clause, cache, q, o, z, c01, cul):
 
 
 def _mbt(ctx):
-    nb = 500 if ctx.quick else 8000
+    nb = 600 if ctx.quick else 8000
     depth = 30 if ctx.quick else 40
     nreq = 7 if ctx.quick else 10
     behs = []
     for k, (share, reqs, templates, shells, sfs, plans) in enumerate((
-            (0.6, "C12Reqs", "C12Templates", "C12Shells", "C12ServerFilters", "PlansC12"),
-            (0.4, "C12ReqsA", "C12HdrFocus", "C12Shells", "C12ServerFilters", "PlansHdrFocus"))):
+            (0.3, "C12SimReqs", "C12SimTemplates", "C12SimShells", "C12SimServerFilters", "PlansC12"),
+            (0.2, "C12ReqsA", "C12HdrFocus", "C12Shells", "C12ServerFilters", "PlansHdrFocus"),
+            (0.2, "C12SimReqs", "C12FilterFocus", "C12SimShells", "C12SimServerFilters", "PlansFilterFocus"),
+            (0.3, "C05FocusReqs", "C12FilterFocus", "C05FocusShells", "C12SimServerFilters", "PlansFilterFocus"))):
         behs += ctx.tlc_simulate("HttpRouter_Gen", R.gen_cfg(reqs, nreq, True, templates, shells, sfs, plans, twin=True),
                                  num=int(nb * share), depth=depth, timeout=1200, seed=ctx.seed * 10 + k)
     behs = [b for b in behs if b and b[0].get("a") == "cfg" and len(b) > 1]
